@@ -241,6 +241,19 @@ pub mod uf {
     pub fn exp(x: f64) -> f64 { x.exp() }
     pub fn ln(x: f64) -> f64 { x.ln() }
     pub fn atan(x: f64) -> f64 { x.atan() }
+    pub fn asin(x: f64) -> f64 { x.asin() }
+    pub fn acos(x: f64) -> f64 { x.acos() }
+    pub fn sinh(x: f64) -> f64 { x.sinh() }
+    pub fn cosh(x: f64) -> f64 { x.cosh() }
+    pub fn asinh(x: f64) -> f64 { x.asinh() }
+    pub fn acosh(x: f64) -> f64 { x.acosh() }
+    pub fn atanh(x: f64) -> f64 { x.atanh() }
+    pub fn exp2(x: f64) -> f64 { x.exp2() }
+    pub fn exp_m1(x: f64) -> f64 { x.exp_m1() }
+    pub fn ln_1p(x: f64) -> f64 { x.ln_1p() }
+    pub fn log2(x: f64) -> f64 { x.log2() }
+    pub fn log10(x: f64) -> f64 { x.log10() }
+    pub fn cbrt(x: f64) -> f64 { x.cbrt() }
     pub fn powf(x: f64, p: f64) -> f64 { x.powf(p) }
     pub fn powi(x: f64, n: i32) -> f64 { x.powi(n) }
 }
